@@ -31,3 +31,10 @@ const H4 uint64 = 4
 func h2(x uint64) uint64 {
 	return x + 2
 }
+
+// a package-level variable (translated as a constant)
+var Levelh uint64 = 3
+
+func ReadLevelh() uint64 {
+	return Levelh + 1
+}
